@@ -16,4 +16,9 @@ if ! (cd "$S/gophersat" && go test -vet=off -count=1 ./... > "$S/baseline.log" 2
   echo "TOOL-TROUBLE the repository's tests fail on the instrumented copy:"; tail -30 "$S/baseline.log"; exit 2
 fi
 echo "baseline suite on the instrumented copy (no hook installed): $(grep -c '^ok' "$S/baseline.log") packages ok"
+# 3. the two reference certificate checkers (naive and watched-literal) agree line by line
+if ! (cd sim && GOTOOLCHAIN=local go1.26.8 test -count=1 ./ref > "$S/ref.log" 2>&1); then
+  echo "TOOL-TROUBLE the reference checkers disagree:"; tail -20 "$S/ref.log"; exit 2
+fi
+echo "reference models: go test ./ref ok (FastRUP agrees with the naive RUP checker)"
 bin/gscheck -selftest "$@" || exit 2
